@@ -67,6 +67,9 @@ theorem cmdLoop_net (sc : Scripts) (k : Nat) (w : World) :
 theorem userIO_eof (w : World) (u x : Nat) :
     ((userIO w u).net.get x).eof = (w.net.get x).eof ∧ (userIO w u).naccepted = w.naccepted := by
   unfold userIO
+  split
+  · exact ⟨rfl, rfl⟩
+  unfold userIO0
   dsimp only
   split
   · refine ⟨?_, rfl⟩
@@ -100,6 +103,12 @@ theorem processIO_eof (w : World) (x : Nat) :
 
 theorem userIO_turn (w : World) (u x : Nat) : turnOf (userIO w u) x = turnOf w x := by
   unfold userIO
+  split
+  · simp only [turnOf, get_upd]
+    split
+    · rename_i hx; subst hx; rfl
+    · rfl
+  unfold userIO0
   dsimp only
   split
   · simp only [turnOf, get_upd]
